@@ -820,6 +820,18 @@ class SArr:
     def __itruediv__(self, o):
         return self._inplace(o, lambda a, b: a / b)
 
+    def __mod__(self, o):
+        return self._binop(o, lambda a, b: a % b)
+
+    def __floordiv__(self, o):
+        return self._binop(o, lambda a, b: a // b)
+
+    def __imod__(self, o):
+        return self._inplace(o, lambda a, b: a % b)
+
+    def __ifloordiv__(self, o):
+        return self._inplace(o, lambda a, b: a // b)
+
     def __matmul__(self, o):
         return matmul(self, o)
 
